@@ -218,7 +218,7 @@ func extraC05(c *Ctx) {
 
 func extraC07(c *Ctx) {
 	p := c.Prog
-	c.Rule("R7.5", "a plan change is consumed: the status hash is refreshed on every success return of the handler", 2)
+	c.Rule("R7.5", "a plan change is consumed: the status hash is refreshed on every success return of the handler", 1)
 	fn := p.Func("pkg/controller/rollout.RolloutReconciler.handleRolloutPlanChanged")
 	if fn == nil {
 		c.Unresolved("R7.5", "handleRolloutPlanChanged")
@@ -237,8 +237,8 @@ func extraC07(c *Ctx) {
 		return n == "RolloutHash" && TermOf(st.Val).Any(func(t *Term) bool { return t.Op == "lookup" })
 	}
 	n := mustPassOnSuccess(c, "R7.5", "handleRolloutPlanChanged#hash-refreshed", fn, isHash, "success only after status.rolloutHash was set from the rollout-hash annotation")
-	if n < 2 {
-		c.Ob("R7.5", "handleRolloutPlanChanged#success-returns", fn.Pos(), false, "success returns of the handler", fmt.Sprintf("found %d, expected the step-ready and the jump return", n))
+	if n < 1 { // (a single-exit form has one success return for both the step-ready and the jump case)
+		c.Ob("R7.5", "handleRolloutPlanChanged#success-returns", fn.Pos(), false, "success returns of the handler", fmt.Sprintf("found %d", n))
 	}
 }
 
